@@ -168,8 +168,9 @@ pub fn update(defs: &BTreeMap<String, TableDef>, pre: &Tables, table: &str, pair
         if cdef.name == table {
             return Verdict::Unknown("key update on self-referencing table".into());
         }
-        // simultaneous mapping old -> new, computed against the pre-state children
-        let kids_pre: Rows = pre[&cdef.name].clone();
+        // simultaneous mapping old -> new over this key's column (a column no other key of the child touches,
+        // so the rows as left by the child's other foreign keys are the right starting point)
+        let kids_pre: Rows = st[&cdef.name].clone();
         let mut kids_post: Rows = Vec::new();
         for c in kids_pre {
             let hit = changed.iter().find(|(o, _)| same(&c[fk.col], o));
